@@ -23,7 +23,7 @@ LEVEL_TEXT = ("Base scenarios with depth-dependent sheared, time-dependent curre
 LEVEL_NOTE = "Equality is on f8 output, so 'bit for bit' is exact. Trusts the row tag column (an int instance variable) to follow the particle (C05)."
 RULE = ("case = base scenario + variant list. Non-trivial: at least one particle placed behind a removed/killed one in the state arrays survives for >= 3 further records "
         "(the cross-talk pattern); distinct by base parameters.")
-MANDATORY = ["restart_in_dense_layout_pairs", "discrete_release_with_frequency_entry", "repeat_with_stateful_plugin_pairs", "interleaved_release_times_pairs", "shallow_only_pairs", "killed_newest_pairs", "pid_to_row_mapping_checked", "vertical_advection", "deactivated_rows_alone_pairs", "lonlat_release_pairs", "reversed_time", "subgrid_off_diagonal", "float_day_time_axis", "repeat_pairs", "subset_pairs", "added_rows_pairs", "permuted_pairs", "killed_others_pairs", "time_shift_pairs", "deactivated_others_pairs", "empty_state_before_late_release_pairs", "death_then_output",
+MANDATORY = ["rows_with_mult_counted", "time_shift_of_a_century_or_more_pairs", "restart_in_dense_layout_pairs", "discrete_release_with_frequency_entry", "repeat_with_stateful_plugin_pairs", "interleaved_release_times_pairs", "shallow_only_pairs", "killed_newest_pairs", "pid_to_row_mapping_checked", "vertical_advection", "deactivated_rows_alone_pairs", "lonlat_release_pairs", "reversed_time", "subgrid_off_diagonal", "float_day_time_axis", "repeat_pairs", "subset_pairs", "added_rows_pairs", "permuted_pairs", "killed_others_pairs", "time_shift_pairs", "deactivated_others_pairs", "empty_state_before_late_release_pairs", "death_then_output",
              "trajectory_points_compared", "dense", "sparse", "survivor_behind_removed"]
 ASSUMPTIONS = ["diffusion off (as the property states)"]
 TIMEOUT = {"quick": 900, "thorough": 3400}
@@ -122,6 +122,11 @@ def base_spec(case: dict[str, Any]):
     for r_, z_ in zip([r for r in rows if r["step"] == 0][:3], (2.5, 3.5, 4.5)):
         r_["Z"] = z_
     rows.sort(key=lambda r: r["step"])
+    if case["idx"] % 3 == 0:
+        # a mult column: some rows stand for several (identical) particles, next to rows of the same release time that stand for one
+        for r_ in rows:
+            r_["mult"] = int(rng.choice([1, 1, 2, 3]))
+        rows[0]["mult"], rows[1]["mult"] = 2, 1
     vadv = bool(case["idx"] % 4 == 2)
     if vadv:  # vertical advection: depth changes too, also for particles an IBM has switched off
         world["scalars"]["w"] = dict(kind="random", seed=case["idx"] + 7, lo=-0.004, hi=0.004, w_levels=True)
@@ -147,8 +152,12 @@ def make_scn(b: dict[str, Any], rows: list[dict[str, Any]], kill_tag: dict[str, 
     if b.get("time_units"):
         w["time_units"] = b["time_units"]
     rel = [[str(tadd(start, sg * r["step"] * dt)), r["X"], r["Y"], r["Z"], r["rid"]] for r in rows]
+    relcols = ["release_time", "X", "Y", "Z", "rid"]
+    if any("mult" in r for r in rows):
+        rel = [[q[0], int(r.get("mult", 1))] + q[1:] for q, r in zip(rel, rows)]
+        relcols = ["release_time", "mult", "X", "Y", "Z", "rid"]
     run = dict(start=start, stop=str(tadd(start, sg * b["nsteps"] * dt)), dt=dt, reversed=rev, subgrid=b.get("subgrid"), advection=b["scheme"], extra_forcing=["temp"],
-               release=dict(columns=["release_time", "X", "Y", "Z", "rid"], rows=rel, header=True,
+               release=dict(columns=relcols, rows=rel, header=True,
                             idle_frequency=(2 * dt if b.get("idlefreq") else 0), continuous_key_false=bool(b.get("idlefreq") == 2)),  # discrete release that still carries a release_frequency entry
                state=dict(instance_variables=dict(rid="int", age="float", temp="float"), particle_variables=dict(release_time="time"), default_values=dict(age=0.0, temp=0.0)),
                ibm=dict(module=C.REC_IBM, age=True, kill_tag=kill_tag, deactivate_tag=deactivate_tag or {}, log=False),
@@ -209,7 +218,18 @@ def run_case(case: dict[str, Any], wd: Path) -> dict[str, Any]:
                     V.append(C.viol(f"{tag}: pid {p_} is the particle of release row {who[int(p_)]} in one record and of row {rid_} in the record at {r.time}: "
                                     f"the numbering is not a renumbering of the particles", **desc))
         sit["pid_to_row_mapping_checked"] = sit.get("pid_to_row_mapping_checked", 0) + len(who)
-        return trajectories(recs, scn["run"]["start"], b["dt"])
+        out_ = trajectories(recs, scn["run"]["start"], b["dt"])
+        if any("mult" in r for r in rows):
+            # every row yields its own mult particles, whatever the other rows of the same time say
+            for r in rows:
+                pts = out_[0].get(r["rid"], [])
+                if pts and len(V) < 3:
+                    c_ = sum(1 for q in pts if q[0] == pts[0][0])
+                    sit["rows_with_mult_counted"] = sit.get("rows_with_mult_counted", 0) + int(r.get("mult", 1) != 1)
+                    if c_ != int(r.get("mult", 1)):
+                        V.append(C.viol(f"{tag}: release row {r['rid']} with mult = {r.get('mult', 1)} appears as {c_} particles in its first record "
+                                        f"(rows of that time: {[(q['rid'], q.get('mult', 1)) for q in rows if q['step'] == r['step']][:8]})", **desc))
+        return out_
 
     base = run("base", b["rows"], {})
     if base is None:
@@ -398,9 +418,11 @@ def run_case(case: dict[str, Any], wd: Path) -> dict[str, Any]:
                 if o:
                     compare("release rows of the same time scattered over the file", o, rids, "interleaved_release_times_pairs")
         elif var == "shift":
-            k = int(rng.choice([-7, 3, 11, 144]))
+            k = int(rng.choice([-7, 3, 11, 144, 15778800, -6311520]))  # also by about 300 years forwards (beyond 2262) and 120 years backwards
             o = run("shift", b["rows"], {}, shift=k)
             if o:
                 compare(f"every time shifted by {k} steps", o, rids, "time_shift_pairs")
+                if abs(k) > 10**6:
+                    sit["time_shift_of_a_century_or_more_pairs"] = sit.get("time_shift_of_a_century_or_more_pairs", 0) + 1
     sample = dict(desc, variants=variants, flow=b["world"]["vel"]["kind"], profile=b["world"]["vel"]["profile"], release_steps=sorted({r["step"] for r in b["rows"]}))
     return C.result(V[:3], sit, cnt, nontrivial=nontrivial or sit.get("trajectory_points_compared", 0) > 0, key=str(case["idx"]), sample=sample)
